@@ -8,6 +8,7 @@ import (
 	"encoding/json"
 	"fmt"
 	"os"
+	"regexp"
 	"sort"
 	"strings"
 	"testing"
@@ -124,6 +125,7 @@ type RunReport struct {
 	Shape      string         `json:"shape"`
 	SchedFP    string         `json:"sched_fp"`
 	States     []string       `json:"states,omitempty"`
+	OrderPairs []string       `json:"order_pairs,omitempty"` // "A<B": a loop message of class A was delivered before one of class B
 	Summary    map[string]any `json:"summary,omitempty"`
 	Log        []string       `json:"log,omitempty"`
 }
@@ -256,6 +258,7 @@ func RunScenario(t *testing.T, s *Scenario, chk Checker, keepLog bool) (rep *Run
 			for k, v := range env.Probes {
 				rep.Probes[k] += v
 			}
+			rep.OrderPairs = orderPairs(sim.LogText())
 			if keepLog {
 				rep.Log = sim.LogText()
 				if os.Getenv("SIM_NAMES") == "1" {
@@ -385,4 +388,41 @@ func dumpMsgs(res *RunResult) {
 		}
 	}
 	fmt.Printf("RESULT err=%v outcome=%v\n", res.Err, res.Outcome)
+}
+
+var segRe = regexp.MustCompile(`seg[0-9]+`)
+var msRe = regexp.MustCompile(`\{[0-9]+ms\}`)
+
+// orderPairs lists, for the loop messages of a run, which message classes were delivered before which.
+func orderPairs(log []string) []string {
+	first := map[string]int{}
+	last := map[string]int{}
+	n := 0
+	for _, l := range log {
+		i := strings.Index(l, "loop|send|")
+		if i < 0 {
+			continue
+		}
+		c := l[i+len("loop|send|"):]
+		if j := strings.IndexByte(c, '#'); j > 0 {
+			c = c[:j]
+		}
+		c = segRe.ReplaceAllString(c, "seg")
+		c = msRe.ReplaceAllString(c, "{}")
+		n++
+		if _, ok := first[c]; !ok {
+			first[c] = n
+		}
+		last[c] = n
+	}
+	var out []string
+	for a := range first {
+		for b := range first {
+			if a != b && first[a] < last[b] {
+				out = append(out, a+"<"+b)
+			}
+		}
+	}
+	sort.Strings(out)
+	return out
 }
